@@ -61,7 +61,12 @@ func (cm *MemChatManager) Join(id ChatID, cc *ClientConn) {
 	cm.mu.Lock()
 	defer cm.mu.Unlock()
 
+	// An invitation can name a chat that does not exist (anybody may send one): accepting it joins nothing.
 	chat := cm.chats[id]
+	if chat == nil {
+		return
+	}
+
 	chat.ClientConn[cc.ID] = cc
 }
 
@@ -81,7 +86,11 @@ func (cm *MemChatManager) GetSubject(id ChatID) string {
 	cm.mu.Lock()
 	defer cm.mu.Unlock()
 
-	return cm.chats[id].Subject
+	if chat := cm.chats[id]; chat != nil {
+		return chat.Subject
+	}
+
+	return ""
 }
 
 func (cm *MemChatManager) Members(id ChatID) []*ClientConn {
@@ -89,6 +98,9 @@ func (cm *MemChatManager) Members(id ChatID) []*ClientConn {
 	defer cm.mu.Unlock()
 
 	chat := cm.chats[id]
+	if chat == nil {
+		return nil
+	}
 
 	var members []*ClientConn
 	for memberID, cc := range chat.ClientConn {
@@ -112,6 +124,9 @@ func (cm *MemChatManager) SetSubject(id ChatID, subject string) {
 	defer cm.mu.Unlock()
 
 	chat := cm.chats[id]
+	if chat == nil {
+		return
+	}
 
 	chat.Subject = subject
 }
